@@ -55,6 +55,7 @@ def gen_desc(rng, k):
         "bulk_prefix": rng.choice(["@", "@", "%"])},
          "files": [["\n".join(lines) + "\n", "naunet"]], "allowed": [], "required": [], "binding": {}, "yield": {}, "cooling": [],
          "heating": [], "shielding": {}, "rate_modifier": {}, "ode_modifier": {}, "grain_model": "", "method": method}
+    d["kv_style"], d["item_sep"] = rng.choice([": ", ": ", ":", " : ", " :"]), rng.choice([",", ",", ", "])
     if rng.random() < 0.4 and not upper:
         d["allowed"] = rng.sample(names, rng.randint(4, len(names)))
     if rng.random() < 0.4 and not upper:
@@ -84,11 +85,30 @@ def gen_desc(rng, k):
     return d
 
 
+def replaced_binding_desc(rng, k=3):
+    """user binding energies / yields for ice species whose names contain *replaced* element symbols (MG -> Mg): the keys of
+    those tables are species names and follow the project's own replacement table"""
+    d = gen_desc(rng, k)
+    while not d["replacement"]:
+        d = gen_desc(rng, k)
+    ice = [native(11, ["MG"], ["#MG"], a=1.0, ty=200), native(12, ["#MG"], ["MG"], a=1.0, ty=201),
+           native(13, ["HCL"], ["#HCL"], a=1.0, ty=200), native(14, ["#HCL"], ["HCL"], a=1.0, ty=201),
+           native(15, ["CL", "H"], ["HCL"])]
+    d["kwargs"] = {"grain_symbol": "GRAIN", "surface_prefix": "#", "bulk_prefix": "@"}
+    d["files"] = [[d["files"][0][0] + "\n".join(ice) + "\n", "naunet"]]
+    d["grain_model"], d["allowed"], d["required"], d["cooling"], d["shielding"] = "hh93", [], [], [], {}
+    d["rate_modifier"], d["ode_modifier"] = {}, {}
+    d.pop("ode_modifier_terms", None)
+    d["binding"], d["yield"] = {"#MG": 4321.0, "#HCL": 5172.0}, {"#HCL": 2.5e-3}
+    return d
+
+
 def option_string(d, name):
     """the option syntax exactly as `naunet example` composes it"""
     kw = d["kwargs"]
-    rs = ",".join(f"{r}: {rv}" for r, rv in d["replacement"].items())
-    sh = ",".join(f"{k}: {v}" for k, v in d["shielding"].items())
+    kv, isep = d.get("kv_style", ": "), d.get("item_sep", ",")     # blanks around the separators are not significant
+    rs = isep.join(f"{r}{kv}{rv}" for r, rv in d["replacement"].items())
+    sh = isep.join(f"{k}{kv}{v}" for k, v in d["shielding"].items())
     bs = ",".join(f"{s}={sv}" for s, sv in d["binding"].items())
     ys = ",".join(f"{s}={sv}" for s, sv in d["yield"].items())
     rm = ",".join(f"{r}:{rv}" for r, rv in d["rate_modifier"].items())
@@ -173,18 +193,7 @@ def run(argv):
                                  "CO": {"factors": ["1e-3"], "reactants": [["CO", "He"]]}}
             d["ode_modifier_terms"], d["ode_modifier_cuts"] = terms, [1, 2]
         if k == 3:
-            # user binding energies / yields for ice species whose names contain *replaced* element symbols (MG -> Mg):
-            # the keys of those tables are species names and follow the project's own replacement table
-            d = gen_desc(rng, k)
-            while not d["replacement"]:
-                d = gen_desc(rng, k)
-            ice = [native(11, ["MG"], ["#MG"], a=1.0, ty=200), native(12, ["#MG"], ["MG"], a=1.0, ty=201),
-                   native(13, ["HCL"], ["#HCL"], a=1.0, ty=200), native(14, ["#HCL"], ["HCL"], a=1.0, ty=201),
-                   native(15, ["CL", "H"], ["HCL"])]
-            d["kwargs"] = {"grain_symbol": "GRAIN", "surface_prefix": "#", "bulk_prefix": "@"}
-            d["files"] = [[d["files"][0][0] + "\n".join(ice) + "\n", "naunet"]]
-            d["grain_model"], d["allowed"], d["required"], d["cooling"], d["shielding"] = "hh93", [], [], [], {}
-            d["binding"], d["yield"] = {"#MG": 4321.0, "#HCL": 5172.0}, {"#HCL": 2.5e-3}
+            d = replaced_binding_desc(rng, k)
         descs.append(d)
     ex_cases = [4, 5, 7, 8, 11] if tier == "quick" else [0, 1, 3, 4, 5, 6, 7, 8, 9, 10, 11, 16, 17, 18]
     process(chk, descs, ex_cases)
